@@ -60,8 +60,6 @@ package shell_operator
 // taskHandleHookRun: status table, retry keeps the combined contexts, rate-limit token, unlock.
 // Ghost log (defined by the trusted contracts below; exists only in the logic).
 
-//@ ghost nRun int
-//@ ghost ranContexts []bindingcontext.BindingContext
 //@ ghost ranErr error
 //@ ghost nCombine int
 //@ ghost lastCombine *CombineResult
@@ -69,17 +67,13 @@ package shell_operator
 //@ ghost nUpdateMeta int
 //@ ghost lastMeta interface{}
 //@ ghost nUnlock int
-//@ ghost lastWaitHook *hook.Hook
 //@ ghost gotMeta interface{}
 // The metadata of a task as a function of the task and of the number of UpdateMetadata calls so far.
 //@ ghost metaEpoch int
 //@ specfn metaOf(t task.Task, epoch int) interface{}
-//@ ghost lastWaitErr error
 
 // Hook.Run executes the hook process with the given contexts (C12 covers its inside). It needs the
 // rate-limit token of this very hook (C18) and consumes it. Ghost: its results.
-//@ ghost lastHookResult *hook.Result
-//@ ghost lastHookErr error
 //@ ghost nSetAdm int
 //@ ghost lastAdmProp interface{}
 // (the contract of (*Hook).Run is in pkg/hook: its body is verified for C12)
@@ -113,23 +107,25 @@ package shell_operator
 // C13: patches are applied at most once per execution, before metrics and responses are accepted.
 //@ func (*ShellOperator).handleRunHook
 //@   prop C14, C18, C04, C13
-//@   requires [rate-limit-token] lastWaitHook == taskHook && lastWaitErr == nil && taskHook != nil
-//@   requires taskHook.HookController != nil && t != nil
-//@   modifies nRun, ranContexts, ranErr, lastWaitHook, lastHookResult, lastHookErr, nSetAdm, lastAdmProp, objectpatch.nPatchExec, objectpatch.nExec, objectpatch.execOp, objectpatch.execErr, objectpatch.lastSpecs, objectpatch.lastDecodeErr
+//@   requires [rate-limit-token] hook.lastWaitHook == taskHook && hook.lastWaitErr == nil && taskHook != nil
+//@   requires taskHook.HookController != nil && t != nil && taskHook.Config != nil && (taskHook.Config.Version == "v0" || taskHook.Config.Version == "v1")
+//@   requires [ghost-wf] hook.nProcess >= 0 && !hook.fsExists[""]
+//@   modifies bindingcontext.lastConvIn, bindingcontext.lastConvVersion, bindingcontext.lastConvOut, hook.lastRefreshIn, hook.lastRefreshOut, hook.fsExists, hook.ctxFileContent, hook.nProcess, hook.lastExitErr, hook.nOutputsRead
+//@   modifies hook.nRun, hook.ranContexts, ranErr, hook.lastWaitHook, hook.lastHookResult, hook.lastHookErr, nSetAdm, lastAdmProp, objectpatch.nPatchExec, objectpatch.nExec, objectpatch.execOp, objectpatch.execErr, objectpatch.lastSpecs, objectpatch.lastDecodeErr
 //@   ghostset ranErr := result
-//@   ensures [runs-once]                nRun == old(nRun) + 1 && ranContexts == hookMeta.BindingContext
-//@   ensures [hook-error-fails]         lastHookErr != nil ==> result != nil
-//@   ensures [response-only-on-success] nSetAdm > old(nSetAdm) ==> result == nil && lastHookErr == nil && nSetAdm == old(nSetAdm) + 1
-//@   ensures [response-is-hooks]        nSetAdm > old(nSetAdm) ==> dyntype(lastAdmProp, *admission.Response) && lastAdmProp.(*admission.Response) == lastHookResult.AdmissionResponse && lastHookResult.AdmissionResponse != nil
-//@   ensures [response-stored]          result == nil && lastHookResult.AdmissionResponse != nil ==> nSetAdm == old(nSetAdm) + 1
+//@   ensures [runs-once]                hook.nRun == old(hook.nRun) + 1 && hook.ranContexts == hookMeta.BindingContext
+//@   ensures [hook-error-fails]         hook.lastHookErr != nil ==> result != nil
+//@   ensures [response-only-on-success] nSetAdm > old(nSetAdm) ==> result == nil && hook.lastHookErr == nil && nSetAdm == old(nSetAdm) + 1
+//@   ensures [response-is-hooks]        nSetAdm > old(nSetAdm) ==> dyntype(lastAdmProp, *admission.Response) && lastAdmProp.(*admission.Response) == hook.lastHookResult.AdmissionResponse && hook.lastHookResult.AdmissionResponse != nil
+//@   ensures [response-stored]          result == nil && hook.lastHookResult.AdmissionResponse != nil ==> nSetAdm == old(nSetAdm) + 1
 //@   ensures [patch-at-most-once]       objectpatch.nPatchExec <= old(objectpatch.nPatchExec) + 1
 //@   ensures [patch/all-or-nothing @C13] objectpatch.nPatchExec > old(objectpatch.nPatchExec) ==> objectpatch.lastDecodeErr == nil && forall(j, 0, len(objectpatch.lastSpecs), objectpatch.SpecValid(objectpatch.lastSpecs[j]))
-//@   ensures [patch/in-order @C13]       lastHookErr == nil && objectpatch.nPatchExec > old(objectpatch.nPatchExec) ==> objectpatch.nExec == old(objectpatch.nExec) + len(objectpatch.lastSpecs)
+//@   ensures [patch/in-order @C13]       hook.lastHookErr == nil && objectpatch.nPatchExec > old(objectpatch.nPatchExec) ==> objectpatch.nExec == old(objectpatch.nExec) + len(objectpatch.lastSpecs)
 //@        && forall(k, old(objectpatch.nExec), objectpatch.nExec, objectpatch.execOp[k] == objectpatch.opOf(objectpatch.lastSpecs[k - old(objectpatch.nExec)]))
-//@   ensures [patch/bad-file-fails @C13] lastHookErr == nil && result == nil && len(lastHookResult.KubernetesPatchBytes) > 0 ==> objectpatch.nPatchExec == old(objectpatch.nPatchExec) + 1
-//@   ensures [patch/no-file-no-patch @C13] lastHookErr == nil && len(lastHookResult.KubernetesPatchBytes) == 0 ==> objectpatch.nPatchExec == old(objectpatch.nPatchExec)
+//@   ensures [patch/bad-file-fails @C13] hook.lastHookErr == nil && result == nil && len(hook.lastHookResult.KubernetesPatchBytes) > 0 ==> objectpatch.nPatchExec == old(objectpatch.nPatchExec) + 1
+//@   ensures [patch/no-file-no-patch @C13] hook.lastHookErr == nil && len(hook.lastHookResult.KubernetesPatchBytes) == 0 ==> objectpatch.nPatchExec == old(objectpatch.nPatchExec)
 //@   loop 1
-//@     invariant nRun == old(nRun) && lastWaitHook == old(lastWaitHook) && lastWaitErr == old(lastWaitErr) && nSetAdm == old(nSetAdm) && objectpatch.nPatchExec == old(objectpatch.nPatchExec)
+//@     invariant hook.nRun == old(hook.nRun) && hook.lastWaitHook == old(hook.lastWaitHook) && hook.lastWaitErr == old(hook.lastWaitErr) && nSetAdm == old(nSetAdm) && objectpatch.nPatchExec == old(objectpatch.nPatchExec)
 
 // ---- C07: combining adjacent tasks ------------------------------------------------------------
 // Accessors of task metadata as functions of the metadata value.
@@ -401,21 +397,23 @@ package shell_operator
 //@ func (*ShellOperator).taskHandleHookRun
 //@   prop C04, C18, C14
 //@   requires op.HookManager != nil && op.TaskQueues != nil && t != nil
-//@   modifies nRun, ranContexts, ranErr, nCombine, lastCombine, allMergedAllowFailure, nUpdateMeta, lastMeta, nUnlock, lastWaitHook, lastWaitErr, lastHookResult, lastHookErr, nSetAdm, lastAdmProp, objectpatch.nPatchExec, objectpatch.nExec, objectpatch.execOp, objectpatch.execErr, objectpatch.lastSpecs, objectpatch.lastDecodeErr, gotMeta, metaEpoch, rate.lastWaitLimiter, rate.lastLimiterErr
+//@   modifies hook.nRun, hook.ranContexts, ranErr, nCombine, lastCombine, allMergedAllowFailure, nUpdateMeta, lastMeta, nUnlock, hook.lastWaitHook, hook.lastWaitErr, hook.lastHookResult, hook.lastHookErr, nSetAdm, lastAdmProp, objectpatch.nPatchExec, objectpatch.nExec, objectpatch.execOp, objectpatch.execErr, objectpatch.lastSpecs, objectpatch.lastDecodeErr, gotMeta, metaEpoch, rate.lastWaitLimiter, rate.lastLimiterErr
+//@   requires [ghost-wf] hook.nProcess >= 0 && !hook.fsExists[""]
+//@   modifies bindingcontext.lastConvIn, bindingcontext.lastConvVersion, bindingcontext.lastConvOut, hook.lastRefreshIn, hook.lastRefreshOut, hook.fsExists, hook.ctxFileContent, hook.nProcess, hook.lastExitErr, hook.nOutputsRead
 //@   modifies seenItems, filterItems, mergedTasks, mergedSeq, lastCombined, nMerged, all(queue.TaskQueue.items), all(queue.TaskQueue.measureActionFn), queue.nMut, allelems(string)
 //@   let ep0 := old(metaEpoch)
-//@   ensures [at-most-one-run]      nRun == old(nRun) || nRun == old(nRun) + 1
-//@   ensures [status/skipped]       nRun == old(nRun) ==> result.Status == "Success" || result.Status == "Repeat"
-//@   ensures [status/repeat]        result.Status == "Repeat" ==> nRun == old(nRun) && lastWaitErr != nil
-//@   ensures [status/ok]            nRun == old(nRun) + 1 && ranErr == nil ==> result.Status == "Success"
-//@   ensures [status/failed]        nRun == old(nRun) + 1 && ranErr != nil ==> result.Status == "Success" || result.Status == "Fail"
-//@   ensures [ran-combined]         nRun == old(nRun) + 1 && nCombine == old(nCombine) + 1 && lastCombine != nil ==> ranContexts == lastCombine.BindingContexts
+//@   ensures [at-most-one-run]      hook.nRun == old(hook.nRun) || hook.nRun == old(hook.nRun) + 1
+//@   ensures [status/skipped]       hook.nRun == old(hook.nRun) ==> result.Status == "Success" || result.Status == "Repeat"
+//@   ensures [status/repeat]        result.Status == "Repeat" ==> hook.nRun == old(hook.nRun) && hook.lastWaitErr != nil
+//@   ensures [status/ok]            hook.nRun == old(hook.nRun) + 1 && ranErr == nil ==> result.Status == "Success"
+//@   ensures [status/failed]        hook.nRun == old(hook.nRun) + 1 && ranErr != nil ==> result.Status == "Success" || result.Status == "Fail"
+//@   ensures [ran-combined]         hook.nRun == old(hook.nRun) + 1 && nCombine == old(nCombine) + 1 && lastCombine != nil ==> hook.ranContexts == lastCombine.BindingContexts
 //@   ensures [retry-keeps-contexts] nCombine == old(nCombine) + 1 && lastCombine != nil ==> nUpdateMeta > old(nUpdateMeta) && dyntype(lastMeta, task_metadata.HookMetadata)
 //@        && lastMeta.(task_metadata.HookMetadata).BindingContext == lastCombine.BindingContexts
-//@   ensures [failed-strict]        nRun == old(nRun) + 1 && ranErr != nil && (nCombine == old(nCombine) || lastCombine == nil) && dyntype(metaOf(t, ep0), task_metadata.HookMetadata)
+//@   ensures [failed-strict]        hook.nRun == old(hook.nRun) + 1 && ranErr != nil && (nCombine == old(nCombine) || lastCombine == nil) && dyntype(metaOf(t, ep0), task_metadata.HookMetadata)
 //@        && !metaOf(t, ep0).(task_metadata.HookMetadata).AllowFailure ==> result.Status == "Fail"
-//@   ensures [response-needs-success] nSetAdm > old(nSetAdm) ==> ranErr == nil && nRun == old(nRun) + 1
-//@   ensures [allow-merged @C04]    nRun == old(nRun) + 1 && ranErr != nil && result.Status == "Success" && nCombine == old(nCombine) + 1 && lastCombine != nil ==> allMergedAllowFailure
+//@   ensures [response-needs-success] nSetAdm > old(nSetAdm) ==> ranErr == nil && hook.nRun == old(hook.nRun) + 1
+//@   ensures [allow-merged @C04]    hook.nRun == old(hook.nRun) + 1 && ranErr != nil && result.Status == "Success" && nCombine == old(nCombine) + 1 && lastCombine != nil ==> allMergedAllowFailure
 //@   ensures [unlock-after-success] nUnlock > old(nUnlock) ==> result.Status == "Success"
 //@   ensures [no-extra-tasks]       len(result.HeadTasks) == 0 && len(result.TailTasks) == 0 && len(result.AfterTasks) == 0
 //@   loop 1
